@@ -416,7 +416,11 @@ Handle ==
          failed == g.k \in {"err", "hang"}
          sieStatus == ~failed /\ g.rep.st \in SieStatuses
          errRep == IF failed THEN [ccp |-> 0, sie |-> None] ELSE g.rep
-     IN IF ~failed /\ g.rep.st = 304
+     IN IF ~failed /\ g.rep.st = 304 /\ s.rep.etag = 0 /\ s.rep.lm < 0 /\ "foreign_304_freshens" \notin Defects
+          THEN \* the stored response has no validator: the conditional headers were the client's own and so is the 304
+               Finish(RetEv("MISS", 304, g.tok, g.tag, g.rep.age, IF g.rep.age = None THEN 0 ELSE 1, HOf(g.rep), 0))
+               /\ UNCHANGED <<now, idx, ent, ctr>>
+        ELSE IF ~failed /\ g.rep.st = 304
           THEN \* freshen: merge and (repaired) write back through StoreResponse
                IF "no304_writeback" \in Defects \/ Has(ex.rq, "no-store") \/ (g.rep.ccp = 1 /\ Has(g.rep, "no-store"))
                  THEN Finish(RetEv("REVALIDATED", s.rep.st, s.tok, g.tag, Merge(s.rep, g.rep).age,
@@ -589,7 +593,7 @@ BgHandle ==
         ELSE IF g.rep.st = 304 /\ "bg_shares_response" \in Defects
           THEN \* the pinned tree merged the 304 into the response object the caller already holds
                /\ ex' = Idle
-               /\ led' = OnMut(led, [ev |-> "mut", x |-> ex.x, resp |-> 1, req |-> 0, t |-> now], 0)
+               /\ led' = OnMut(led, [ev |-> "mut", x |-> ex.x, resp |-> 1, req |-> 0, body |-> 0, t |-> now], 0)
         ELSE UNCHANGED led /\
         IF g.rep.st = 304
           THEN IF "no304_writeback" \in Defects \/ Has(ex.rq, "no-store") \/ (g.rep.ccp = 1 /\ Has(g.rep, "no-store")) THEN ex' = Idle
